@@ -1203,6 +1203,7 @@ func runC13(seed int64, tier string, outDir string) *result {
 
 	// 7. error returns leave the log usable
 	c13ErrorPaths(t)
+	c13ViewsAreSnapshots(t)
 
 	res.Distinct = len(t.sigs)
 	res.Rule = "distinct case signatures (mode, multiset of per-goroutine operation sequences, parked yield point) among runs that completed and in which either a goroutine was parked at a yield point while the others ran, or operations of different goroutines measurably overlapped in time (logical timestamps), or (race soak) >= 3 goroutines ran unsynchronised under the race detector"
